@@ -54,7 +54,12 @@ def worldOp (op : String) (a : List Int) : Option String :=
                 | "wd.rep" => some (World.repay c amount (s2b fl))
                 | "wd.close" => some (World.closeBalance c)
                 | _ => none
-              if op == "wd.endfl" then
+              if op == "wd.emis" then
+                -- (amount field: 1 = the emissions mint passed is the bank's, 0 = another mint)
+                let c' : Ctx := { c with b := { c.b with emissionsMint := 1 }, emisMint := if amount = 1 then 1 else 2 }
+                some (showResB ((World.withdrawEmissions c').map fun o =>
+                  s!"{showSlots7 o.slots} {showBank o.books} {o.books.lastUpdate} {o.tokens} {o.window.dailyLimit} {o.window.withdrawnToday} {o.window.lastReset}"))
+              else if op == "wd.endfl" then
                 some (showResB ((World.endFlashloan c amount.toNat).map fun f => s!"{f}"))
               else if op == "wd.bkr" then
                 some (showResB ((World.bankruptcy c amount).map fun o =>
